@@ -5,7 +5,7 @@ src/munged/{hash,replay,dec,cred}.c; theorems: lean/Munge/Props/C07.lean; corres
 property oracle: harness/h_hash.c (real hash.c, replay.c, dec.c with time() interposed and the
 purge called directly) against the Lean driver and a python set with a clock."""
 from ..vlib import leanlib
-from ..gen import g_hash
+from ..gen import g_hash, g_replayins
 from . import _replay_common as rc
 
 LEVEL = "proof"
@@ -117,6 +117,9 @@ def run(ctx):
     g_hash.generate(ctx)
     if ctx.replay_in:
         return rc.replay_file(ctx, "replay memory lifetime")
+    # replay_insert translated: the record is the first 16 MAC bytes and (time0 + ttl) mod 2^32
+    if g_replayins.generate(ctx):
+        leanlib.check_props(ctx, "C05Insert")
     leanlib.check_props(ctx, "C07")
     drv, h = rc.build(ctx)
     if not drv or not h:
